@@ -44,6 +44,8 @@ var c11Receivers = map[model.Kind][]model.Value{
 	model.KStr: {
 		model.Str(""), model.Str("a"), model.Str("hello world"), model.Str("héllo"), model.Str("éa"), model.Str("中文字"), model.Str("a😀b"),
 		model.Str("éx"), model.Str("ılık"), model.Str("ſo"), model.Str("ɐb"), model.Str("ɐ"), model.Str("ⱥb"), model.Str("ǆx"), model.Str("  pad\t\n"), model.Str("12"), model.Str("-7"), model.Str("a,b,,c"), model.Str("&lt;b&gt; &amp;"), model.Str("ßx"), model.Str("xx--xx"), model.Str("café"), model.Str("Maß"), model.Str("日本語"), model.Str("x😀"), model.Str("añ"), model.Str("©é©"), model.Str("abc\uFFFD"), model.Str("\uFFFD"), model.Str("\uFFFDx\uFFFD"), model.Str("x\U0010FFFF"),
+		// characters whose upper or lower case form has another encoded width, or none of their own
+		model.Str("İstanbul"), model.Str("İZMİR"), model.Str("\u212Aelvin \u212B \u2126"), model.Str("ẞ"), model.Str("xȺ"), model.Str("Ⱦ"), model.Str("ǅ ǈ ǋ ǲ"), model.Str("ǆǉ"), model.Str("ɐɑɒ"), model.Str("ſt"), model.Str("ŉ"), model.Str("ΐ"), model.Str("ß"), model.Str("ﬁ"), model.Str("ქართული"), model.Str("ᲓᲐ"),
 	},
 	model.KArr: {
 		model.Arr(), model.Arr(model.Int(1)), model.Arr(model.Int(1), model.Int(2), model.Int(3)), model.Arr(model.Str("b"), model.Str("a"), model.Str("c"), model.Str("a")),
@@ -453,6 +455,21 @@ func init() {
 				{model.Arr(model.Float(2)), i2},
 				{model.Arr(model.Arr(i1, i2)), model.Arr(i2, i1)},
 				{model.Arr(model.Obj(map[string]model.Value{"a": model.Arr(i1)})), model.Obj(map[string]model.Value{"a": model.Arr(i1)})},
+				// properties that hold nil are properties: they tell an object from one without them
+				{model.Arr(model.Obj(map[string]model.Value{"a": model.Nil})), model.Obj(map[string]model.Value{})},
+				{model.Arr(model.Obj(map[string]model.Value{})), model.Obj(map[string]model.Value{"a": model.Nil})},
+				{model.Arr(model.Obj(map[string]model.Value{"a": model.Nil})), model.Obj(map[string]model.Value{"b": model.Nil})},
+				{model.Arr(model.Obj(map[string]model.Value{"id": model.Int(7), "parent": model.Nil})), model.Obj(map[string]model.Value{"id": model.Int(7)})},
+				{model.Arr(model.Obj(map[string]model.Value{"id": model.Int(7), "parent": model.Nil})), model.Obj(map[string]model.Value{"parent": model.Nil, "id": model.Int(7)})},
+				{model.Arr(model.Arr(model.Obj(map[string]model.Value{"k": model.Obj(map[string]model.Value{"z": model.Nil})}))), model.Arr(model.Obj(map[string]model.Value{"k": model.Obj(map[string]model.Value{})}))},
+				{model.Arr(model.Arr(model.Nil)), model.Arr()},
+				{model.Arr(model.Arr(model.Nil, model.Nil)), model.Arr(model.Nil)},
+				{model.Arr(model.Obj(map[string]model.Value{"a": model.Str("")})), model.Obj(map[string]model.Value{"a": model.Nil})},
+				{model.Arr(model.Obj(map[string]model.Value{"a": model.Int(0)})), model.Obj(map[string]model.Value{"a": model.Bool(false)})},
+				{model.Arr(model.Obj(map[string]model.Value{"a": model.Float(0)})), model.Obj(map[string]model.Value{"a": model.Int(0)})},
+				{model.Arr(model.Arr(model.Arr(i1))), model.Arr(model.Arr(i1))},
+				{model.Arr(model.Arr(model.Obj(map[string]model.Value{"a": i1}))), model.Arr(model.Obj(map[string]model.Value{"a": i1}))},
+				{model.Arr(model.Arr(model.Arr(model.Arr(i1, i2)))), model.Arr(model.Arr(model.Arr(i1, i2)))},
 			}
 			secs = append(secs, core.Section{Name: "contains-structural", Exhaustive: true, N: len(cpairs),
 				Run: func(c *core.Ctx, i int) {
